@@ -586,10 +586,10 @@ def run_entry(ctx, nt, gen_cases):
         kind, p, strat, res, fl, shape, h = c.split("\t")
         exp = meta[k][0]
         if p == "tape":
-            for v in ("tape-from2", "tape-late", rng.choice(["wf-tape", "box-tape", "ref-tape"])):
+            for v in ("tape-from2", "tape-late", rng.choice(["wf-tape", "box-tape", "ref-tape", "res-box-tape"])):
                 variants.append(("\t".join(["de.bin.entry", v, strat, res, fl, shape, h]), exp, v, None))
         elif p == "slice":
-            for v in ("slice-from2", rng.choice(["wf-slice", "box-slice", "ref-slice"])):
+            for v in ("slice-from2", rng.choice(["wf-slice", "box-slice", "ref-slice", "res-ref-slice", "res-box-slice"])):
                 variants.append(("\t".join(["de.bin.entry", v, strat, res, fl, shape, h]), exp, v, (strat, res, fl, shape)))
             if strat == "ignore":
                 variants.append(("\t".join(["de.bin", "freader:" + rng.choice(["-", "1*", "3,5*", "4096,1"]), strat, res, fl, shape, h]), exp, "freader", None))
@@ -597,6 +597,30 @@ def run_entry(ctx, nt, gen_cases):
             _r, n, sched = p.split(":")
             for v in ("reader-from2:%s:%s" % (n, sched), "wf-reader:%s:%s" % (n, sched)):
                 variants.append(("\t".join(["de.bin.entry", v, strat, res, fl, shape, h]), exp, v.split(":")[0], (strat, res, fl, shape)))
+    # configurations in which the strategy / resolver / flavor is visible in the value, through every variant: unknown and known
+    # ids as map keys, values, elements and enum variants; floats of both widths
+    for strat in ("error", "stringify", "ignore"):
+        for known in (True, False):
+            for fl in ("eu4", "raw"):
+                idv = rng.choice([0x1234, 0x00e1, 0x2d82])
+                doc = {"t": "obj", "f": [fld(S_str("abc", "ID", idv), S_str("abc", "ID", idv)),
+                                         fld("e", {"t": "arr", "v": [S_str("abc", "ID", idv), S_str("q", "Q")]}, ghost=1),
+                                         fld("f", {"t": "arr", "v": [S_rawf("F32", struct.pack("<i", rng.randrange(-10 ** 6, 10 ** 6))),
+                                                                     S_rawf("F64", struct.pack("<q", rng.randrange(-2 ** 36, 2 ** 36)))]})]}
+                shape = ("map", "any")
+                res = ("map:%04x=%s" % (idv, hx("abc"))) if known else rng.choice(["map:-", "lines:-", "map:0001=" + hx("abc")])
+                M = D.Mode("bin", flavor=fl, strategy=strat, known={"abc"} if known else set(), ids={})
+                h = hx(enc_fields(doc, fl))
+                exp = expect(shape, doc, M, "slice")
+                n, sched = rng.choice([40, 64, 32768]), rng.choice(["-", "1*", "3,5*"])
+                for v in ("tape-from2", "tape-late", "wf-tape", "box-tape", "ref-tape", "res-box-tape", "res-ref-slice", "res-box-slice"):
+                    variants.append(("\t".join(["de.bin.entry", v, strat, res, fl, sstr(shape), h]), exp, v, None))
+                for v in ("slice-from2", "wf-slice", "box-slice", "ref-slice", "reader-from2:%d:%s" % (n, sched), "wf-reader:%d:%s" % (n, sched)):
+                    variants.append(("\t".join(["de.bin.entry", v, strat, res, fl, sstr(shape), h]), exp, v.split(":")[0], (strat, res, fl, sstr(shape))))
+                if strat == "ignore":
+                    for p in ("fslice", "freader:" + sched):
+                        variants.append(("\t".join(["de.bin", p, strat, res, fl, sstr(shape), h]), exp, p.split(":")[0], None))
+                ctx.count("entry_config_docs")
     # what a second deserialize() on the two lexer paths must return: the value of the EMPTY input (the first call consumed everything)
     second = {}
     for (_c, _e, v, cfg) in variants:
